@@ -11,6 +11,7 @@ def run(ctx):
     ctx.run_space(b, "faults", ["full=%d" % (4 if ctx.thorough else 3), "leaks=1"], cpu_limit=120)
     if ctx.thorough:
         ctx.run_space(b, "faults", ["full=2", "leaks=1", "pairs=1"], cpu_limit=300)
+    ctx.run_space(b, "fromfile", cpu_limit=120)
     # "for every archive": damaged archives too - cut at every offset, and every header byte substituted/deleted/duplicated
     w = build.ensure_explorer("arc_walk", "asan", extra_ld=WRAP_WALK)
     ctx.run_space(w, "kinds", ["prop=20", "stride=1", "leaks=1"], cpu_limit=60)
